@@ -72,6 +72,13 @@ def lin_diff(actual, expected):
         for m in ma:
             if actual.terms[m] != expected.terms[m]:
                 return ("coeff", T._mono_repr(m), str(actual.terms[m]), str(expected.terms[m]))
+    # a monomial present on one side only counts as coefficient 0 on the other side when it is built from
+    # atoms that both sides share (or is the constant term): then the difference is a definite coefficient error
+    common_atoms = {a for m in ma & me for a, _ in m}
+    odd = (ma ^ me)
+    if (ma & me or () in odd) and odd and all(all(a in common_atoms for a, _ in m) for m in odd):
+        m = sorted(odd, key=T._mono_repr)[0]
+        return ("coeff", T._mono_repr(m), str(actual.terms.get(m, 0)), str(expected.terms.get(m, 0)))
     return ("unknown", "normal forms differ structurally: %r  vs  %r" % (actual, expected))
 
 
